@@ -689,3 +689,55 @@ def stencil_clause(vals, num, sign):
             show(num=num, n=n, a=a, kappa=kap, res=res.tolist()[:5], want=want.tolist()[:5])
             ok = False
     return ok
+
+
+# --------------------------------------------------------------------------------------
+# C01 / C03 / C19 : real discretisations
+
+def _bc(kind, name, W=None):
+    d = {"type": name}
+    if name == "dirichlet":
+        d["prim"] = [np.float64(w) for w in (W or DEFAULT_STATE[kind])]
+    d.update({"ptot": 1.6, "rttot": 1.15, "p": 0.9})
+    return d
+
+
+def _random_prim(kind, n, seed=0):
+    rng = np.random.default_rng(seed)
+    if kind in ("convection", "burgers"):
+        return [rng.uniform(0.5, 2.0, n)]
+    if kind == "shallowwater":
+        return [rng.uniform(0.5, 2.0, n), rng.uniform(-1, 1, n)]
+    return [rng.uniform(0.5, 2.0, n), rng.uniform(-0.8, 0.8, n), rng.uniform(0.5, 2.0, n)]
+
+
+def make_disc(kind, num, limiter, bcL, bcR, n, vals, flux=None, source=None, sectionlaw=None, uniform=False):
+    import flowdyn.mesh as mesh, flowdyn.modeldisc as md
+    model = build_model(kind, vals, source=source, sectionlaw=sectionlaw)
+    msh = mesh.unimesh(ncell=n, length=1.0) if uniform else mesh.morphedmesh(ncell=n, length=1.0, morph=lambda x: x + 0.4 * x * x)
+    return md.fvm1d(model, msh, _make_num(num, limiter, 0.2), numflux=flux, bcL=_bc(kind, bcL), bcR=_bc(kind, bcR)), model, msh
+
+
+def conservation_clause(vals, kind, num, limiter, bcL, bcR):
+    import flowdyn.field as field
+    ok = True
+    for n in (1, 2, 3, 7, 20):
+        for flux in ([None] if kind in ("convection", "burgers") else list(build_model(kind, vals)._numfluxdict.dict.keys())):
+            disc, model, msh = make_disc(kind, num, limiter, bcL, bcR, n, vals, flux=flux)
+            P = _random_prim(kind, n, seed=n)
+            f = field.fdata(model, msh, model.prim2cons(P))
+            res = disc.rhs(f)
+            vol = msh.vol()
+            for k in range(len(res)):
+                I = float(np.sum(res[k] * vol))
+                bnd = float(disc.flux[k][0] - disc.flux[k][-1])
+                good = close(I, bnd, rtol=1e-9)
+                last = len(res) - 1
+                if bcL == "per":
+                    good = good and abs(I) <= 1e-9 * max(1.0, np.max(np.abs(disc.flux[k])))
+                if bcL == "sym" and bcR == "sym" and (k == 0 or (k == last and kind != "shallowwater")):
+                    good = good and abs(I) <= 1e-9 * max(1.0, np.max(np.abs(disc.flux[k])))
+                if not good:
+                    show(kind=kind, num=num, limiter=limiter, flux=flux, bc=(bcL, bcR), n=n, comp=k, integral=I, boundary=bnd)
+                    ok = False
+    return ok
